@@ -337,3 +337,153 @@ def check_overrides(model, ops, vectorize, seed=0, share_nodes=True):
         # parameter values of merged nodes: read them through the returned arguments by frontend name where possible
         pass
     return fails
+
+
+def snapshot_template(tpl):
+    """Deep, comparable description of a CircuitTemplate: equations, variable values, per-node overrides, connectivity."""
+    def op_snap(op):
+        return dict(name=op.name, equations=list(op.equations), variables={k: repr(v) for k, v in op.variables.items()})
+
+    def node_snap(nt):
+        ops = {}
+        for op, var in nt.operators.items():
+            ops[op.name] = dict(op=op_snap(op), variations={k: repr(v) for k, v in (var or {}).items()})
+        return dict(name=nt.name, operators=ops)
+
+    def edge_snap(e):
+        src, tgt, tmpl, attrs = e[:4]
+        return [src, tgt, getattr(tmpl, "name", None) if tmpl is not None else None,
+                {k: repr(v) for k, v in sorted(attrs.items())}]
+    out = dict(name=tpl.name, nodes={k: node_snap(v) for k, v in tpl.nodes.items()},
+               edges=[edge_snap(e) for e in tpl.edges],
+               circuits={k: snapshot_template(v) for k, v in tpl.circuits.items()})
+    return out
+
+
+READ_ONLY_OPS = ["get_nodes", "get_edges", "get_edge", "collect_edges", "get_node_template", "getitem", "to_yaml", "deepcopy",
+                 "update_template", "get_run_func", "get_jacobian_func", "run", "derive_op_plain", "derive_op_vars", "derive_node",
+                 "run_inputs"]
+
+
+def do_read_only(tpl, model, op):
+    import copy
+    nodes, edges = mdl.flatten(model)
+    first = next(iter(nodes))
+    if op == "get_nodes":
+        tpl.get_nodes(["all"] * len(first.split("/")))
+    elif op == "get_edges":
+        tpl.get_edges("all", "all")
+        if edges:
+            sv, tv = edges[0]["src"].split("/"), edges[0]["tgt"].split("/")
+            tpl.get_edges("/".join(["all"] * (len(sv) - 2) + sv[-2:]), "/".join(["all"] * (len(tv) - 2) + tv[-2:]))
+    elif op == "get_edge":
+        if tpl.edges:
+            tpl.get_edge(tpl.edges[0][0], tpl.edges[0][1])
+    elif op == "collect_edges":
+        tpl.collect_edges()
+    elif op == "get_node_template":
+        tpl.get_node_template(first)
+    elif op == "getitem":
+        tpl[first.split("/")[0]]
+    elif op == "to_yaml":
+        tpl.to_yaml("dump_tpl")
+    elif op == "deepcopy":
+        copy.deepcopy(tpl)
+    elif op == "update_template":
+        tpl.update_template(name="derived")
+    elif op == "get_run_func":
+        tpl.get_run_func("f_ro", step_size=1e-3, backend="default", vectorize=False, verbose=False, clear=True, in_place=False,
+                         float_precision="float64", file_name="ro_mod")
+    elif op == "get_jacobian_func":
+        tpl.get_jacobian_func("j_ro", step_size=1e-3, backend="default", vectorize=False, verbose=False, clear=True, in_place=False,
+                              float_precision="float64", file_name="ro_jac")
+    elif op == "run":
+        tpl.run(simulation_time=0.2, step_size=0.05, solver="euler", outputs={"o": mdl.state_vars(model)[0]}, vectorize=False,
+                verbose=False, clear=True, in_place=False, float_precision="float64")
+    elif op in ("derive_op_plain", "derive_op_vars", "derive_node"):
+        # loading / building a DERIVED template must not touch its base
+        nt = tpl.get_node_template(first)
+        for cand in nodes:                      # prefer a node template that carries per-node overrides
+            nt_c = tpl.get_node_template(cand)
+            if any(v for v in nt_c.operators.values()):
+                nt = nt_c
+                break
+        op0 = next(iter(nt.operators))
+        consts = [k for k, v in op0.variables.items() if not isinstance(v, str)]
+        if op == "derive_op_plain":
+            op0.update_template(name="derived_plain", equations={"replace": {consts[0]: "0.5"}})
+        elif op == "derive_op_vars":
+            op0.update_template(name="derived_vars", equations={"replace": {consts[0]: "0.5"}},
+                                variables={consts[-1]: 9.0} if len(consts) > 1 else {next(iter(op0.variables)): "output(0.1)"})
+        else:
+            nt.update_template(name="derived_node", operators={op0: {consts[-1]: 7.5}})
+    elif op == "run_inputs":
+        node, ops_ = nodes[first]
+        o = node["ops"][0]
+        ivs = [v for v, (vt, _) in ops_[o]["vars"].items() if vt == "input"]
+        tpl.run(simulation_time=0.2, step_size=0.05, solver="euler", outputs={"o": mdl.state_vars(model)[0]}, vectorize=False,
+                verbose=False, clear=True, in_place=False, float_precision="float64",
+                inputs={f"{first}/{o}/{ivs[0]}": np.linspace(0.0, 1.0, 4)})
+    else:
+        raise ValueError(op)
+
+
+def check_read_only(model, ops, seed=0):
+    """C14-B: a sequence of read-only / copy-making operations leaves the template and its vector field unchanged."""
+    tpl = mdl.build_templates(model)
+    before = snapshot_template(tpl)
+    fails = []
+    for op in ops:
+        try:
+            do_read_only(tpl, model, op)
+        except Exception as exn:
+            fails.append(dict(clause=f"read-only operation `{op}` succeeds", observed=f"{type(exn).__name__}: {exn}", op=op))
+            return fails
+        after = snapshot_template(tpl)
+        if after != before:
+            diff = _first_diff(before, after)
+            fails.append(dict(clause="template unchanged by a read-only operation", op=op, observed=diff))
+            return fails
+    # same dynamics afterwards: run(in_place=False) twice, identical and equal to the spec trajectory of the model
+    try:
+        svars = mdl.state_vars(model)
+        outs = {f"v{i}": p for i, p in enumerate(svars)}
+        kw = dict(simulation_time=0.3, step_size=0.05, solver="euler", outputs=outs, vectorize=False, verbose=False, clear=True,
+                  in_place=False, float_precision="float64")
+        r1 = tpl.run(**kw)
+        r2 = tpl.run(**kw)
+        if r1.shape != r2.shape or not np.array_equal(r1.values, r2.values):
+            fails.append(dict(clause="run(in_place=False) twice returns identical results", observed=[r1.values[-1].tolist(), r2.values[-1].tolist()]))
+        _, ref = mdl.spec_fixed_step(model, 0.3, 0.05, 0.05, "euler")
+        for k, p in outs.items():
+            got = np.asarray(r1[k], dtype=float).reshape(len(r1.index), -1)[:, 0]
+            if got.shape != ref[p].shape or not np.allclose(got, ref[p], rtol=1e-7, atol=1e-10):
+                fails.append(dict(clause="dynamics of the template unchanged after read-only operations", var=p,
+                                  observed=float(got[-1]), expected=float(ref[p][-1])))
+                break
+    except Exception as exn:
+        fails.append(dict(clause="running the same template object after read-only operations succeeds",
+                          observed=f"{type(exn).__name__}: {exn}"))
+    return fails
+
+
+def _first_diff(a, b, path=""):
+    if type(a) is not type(b):
+        return f"{path}: {a!r} -> {b!r}"
+    if isinstance(a, dict):
+        for k in sorted(set(a) | set(b), key=str):
+            if k not in a or k not in b:
+                return f"{path}/{k}: {'added' if k in b else 'removed'} ({str(b.get(k, a.get(k)))[:120]})"
+            d = _first_diff(a[k], b[k], f"{path}/{k}")
+            if d:
+                return d
+        return None
+    if isinstance(a, list):
+        if len(a) != len(b):
+            return f"{path}: length {len(a)} -> {len(b)} ({str(b[len(a):] if len(b) > len(a) else a[len(b):])[:160]})"
+        for i, (x, y) in enumerate(zip(a, b)):
+            d = _first_diff(x, y, f"{path}[{i}]")
+            if d:
+                return d
+        return None
+    return None if a == b else f"{path}: {a!r} -> {b!r}"
